@@ -69,3 +69,44 @@ Theorem C10_score_seq : forall c name (steps : list step_in) s i,
   -100 <= rec_score (rec_at (s_dir s') i) <= 100.
 Proof. exact score_seq. Qed.
 Print Assumptions C10_score_seq.
+
+(* BOARD SESSIONS. board = every comment-related attribute of the board header: aligned comments, IP log, no-comment,
+   no-boo, no-fast-recommend and FastRecommendPause (any value); bst = (the article files of the board, .DIR);
+   hstep = one comment: commenter (13-byte id), ip, the article addressed, type, text, clock string, mtime;
+   run_hist = the state after a history of such comments, each accepted or refused by board_step (= recommend on the
+   addressed article file and the .DIR).
+   After EVERY history of comments — by ANY commenters, of any types and texts, on ANY articles of the board, for EVERY
+   combination of the board attributes and every pause — the next accepted comment has exactly the outcome that its own
+   type and the addressed entry determine: the returned line carries the mark of the REQUESTED type and the commenter;
+   the addressed article file grows by exactly this line and every other article file is unchanged; the addressed entry
+   (the one the name designated in the initial index) goes to clamp(old + delta(requested type)); every other entry is
+   byte for byte unchanged; all scores stay within [-100, 100] and no entry changes its name or file mode. *)
+Theorem C10_board_history : forall b names (hist : list hstep) s0 x line s1,
+  scores_ok (bs_dir s0) -> Forall (fun y : hstep => 0 < h_mtime y) hist -> 0 < h_mtime x ->
+  board_step b names x (run_hist b names hist s0) = COk line s1 ->
+  let s := run_hist b names hist s0 in
+  let s' := board_next x s (COk line s1) in
+  line = comment_line (b_align b) (b_iplog b) (h_uid13 x) (h_ip16 x) (h_ct x) (h_content x) (h_clock x) /\
+  ((h_art x < length (bs_arts s))%nat -> nth (h_art x) (bs_arts s') [] = nth (h_art x) (bs_arts s) [] ++ line) /\
+  (forall j, j <> h_art x -> nth j (bs_arts s') [] = nth j (bs_arts s) []) /\
+  length (bs_arts s') = length (bs_arts s) /\
+  exists i, find_entry (bs_dir s0) (nth (h_art x) names []) (length (bs_dir s0) / REC_SZ) = Some i /\
+    rec_score (rec_at (bs_dir s') i) = clamp (rec_score (rec_at (bs_dir s) i) + delta (h_ct x)) /\
+    (forall j, (j < length (bs_dir s0) / REC_SZ)%nat -> j <> i -> rec_at (bs_dir s') j = rec_at (bs_dir s) j) /\
+    scores_ok (bs_dir s') /\ same_index (bs_dir s0) (bs_dir s').
+Proof. exact board_history. Qed.
+Print Assumptions C10_board_history.
+
+(* ... in particular a push is a push whatever was commented before (by the same user or anybody else, a moment ago or not,
+   on a no-fast-recommend board or not): the line starts with ESC[1;37m B1 C0 ' ' and the score of the addressed entry
+   goes up by exactly one (it stays at +100) *)
+Theorem C10_push_after_any_history : forall b names (hist : list hstep) s0 x line s1,
+  scores_ok (bs_dir s0) -> Forall (fun y : hstep => 0 < h_mtime y) hist -> 0 < h_mtime x ->
+  h_ct x = CT_RECOMMEND ->
+  board_step b names x (run_hist b names hist s0) = COk line s1 ->
+  let s := run_hist b names hist s0 in
+  (exists rest, line = [27; 91; 49; 59; 51; 55; 109; 177; 192; 32] ++ rest) /\
+  exists i, find_entry (bs_dir s0) (nth (h_art x) names []) (length (bs_dir s0) / REC_SZ) = Some i /\
+    rec_score (rec_at (s_dir s1) i) = (if rec_score (rec_at (bs_dir s) i) <? 100 then rec_score (rec_at (bs_dir s) i) + 1 else 100).
+Proof. exact push_after_any_history. Qed.
+Print Assumptions C10_push_after_any_history.
